@@ -1,3 +1,4 @@
 //! Reference models (oracles). Written from the specifications; no dependency on /repo code.
 pub mod tt;
 pub mod datalog;
+pub mod quads;
